@@ -58,12 +58,12 @@ func (a aval) isNotNull() bool { return a.k == avNonNil || a.k == avConst || a.k
 
 type absCtx struct {
 	P         *Prog
-	kind      string                  // kind assumed for the subject ("" = none)
-	isSubject func(v ssa.Value) bool  // which values of the root function are the subject
-	selName   string                  // name assumed for the selected field (ast.Field.Name)
-	argAbsent string                  // Arguments.ForName(<this>) answers nil
-	opaque    map[*ssa.Function]bool  // functions not evaluated (the resolvers themselves)
-	budget    int                     // block visits left
+	kind      string                 // kind assumed for the subject ("" = none)
+	isSubject func(v ssa.Value) bool // which values of the root function are the subject
+	selName   string                 // name assumed for the selected field (ast.Field.Name)
+	argAbsent string                 // Arguments.ForName(<this>) answers nil
+	opaque    map[*ssa.Function]bool // functions not evaluated (the resolvers themselves)
+	budget    int                    // block visits left
 	overflow  bool
 	memo      map[string][]aval
 }
